@@ -39,6 +39,20 @@ package reghttp
 //@   ensures backoff-at-least-configured-delay: h0.backoffCur > 0 ==> $ns(t) >= $ns(old(h0.backoffLast)) + resp.client.delayInit
 //@   ensures released-time-recorded: h0.backoffCur > 0 ==> h0.backoffLast == t
 
+// C12 a pending server-requested delay survives other traffic: backoffSet records a Retry-After
+// deadline in backoffLast without counting a failure (backoffCur stays 0), so a success
+// notification (backoffReset) for a host whose counted back-off is already zero must not touch
+// the release time; it is cleared only when the counted back-off drops from one to zero.
+//@ func (*Resp).backoffReset()
+//@   prop C12
+//@   entry-assume resp != nil && resp.client != nil
+//@   let h0 = $hostOf(resp.client, resp.mirror)
+//@   let cur0 = h0.backoffCur
+//@   let last0 = h0.backoffLast
+//@   ensures pending-delay-kept: cur0 <= 0 ==> h0.backoffLast == last0 && h0.backoffCur == cur0
+//@   ensures release-time-cleared-only-at-zero: h0.backoffLast == last0 || (cur0 == 1 && h0.backoffCur == 0 && h0.backoffLast == time.Time{})
+//@   ensures counted-backoff-steps-down-by-one: h0.backoffCur == cur0 || h0.backoffCur == cur0 - 1
+
 // C12 attempt bound: one logical request is attempted at most retryLimit+1 times (plus the one
 // documented extra attempt that allows for an authentication round trip). Every iteration of the
 // request loop that does not return consumes one unit of the retry budget; the budget is the
